@@ -100,15 +100,9 @@ def rule_1(ctx):
         ctx.expect(_sanitised(ctx, r.value, fa, sans), r, 'RangeNode.full_address result is $-free',
                    'the address used to look up a cell keeps the absolute markers: =$A$1*2 reads an '
                    'unknown key and evaluates to 0')
-    xm = ctx.mod('xltypes')
-    pi = xm.func('XLFormula.__post_init__')
-    appends = [c for c in flow.calls_in(pi) if isinstance(c.func, ast.Attribute) and c.func.attr == 'append'
-               and isinstance(c.func.value, ast.Attribute) and c.func.value.attr == 'terms']
-    if not appends:
-        raise AnchorMissing('XLFormula.__post_init__: no terms.append')
-    for c in appends:
-        ctx.expect(_sanitised(ctx, c.args[0], pi, sans), c, 'XLFormula.terms entries are $-free',
-                   'formula terms keep the absolute markers, so build_ranges/extract look up unknown keys')
+    # the terms of a formula: $-free, qualified with the formula's own sheet, recomputed for every formula object
+    from . import corelemma
+    corelemma.rule_formula_per_sheet(ctx)
     # every use of tvalue as a cell key goes through full_address
     ev = am.func('RangeNode.eval')
     keys = [c for c in flow.calls_in(ev) if isinstance(c.func, ast.Attribute) and c.func.attr == 'eval_cell']
@@ -489,6 +483,12 @@ def rule_7(ctx):
     ctx.floor(3, 'sheet unquoting siblings')
 
 
+def rule_8(ctx):
+    """A workbook that repeats a formula text on several sheets: every cell gets a formula bound to ITS sheet (shared with C11.3)."""
+    from . import c11
+    c11.rule_3(ctx)
+
+
 RULES = [
     ('C03.1', '$ is stripped before a cell lookup; the remover\'s decision table', rule_1),
     ('C03.2', 'range materialisation is total', rule_2),
@@ -497,4 +497,5 @@ RULES = [
     ('C03.5', 'range registry keys agree; missing cells are blank', rule_5),
     ('C03.6', 'row-major expansion with inclusive bounds', rule_6),
     ('C03.7', 'sheet names are unquoted by resolve_sheet in both address resolvers', rule_7),
+    ('C03.8', 'loaded formulas are bound to the sheet of their own cell (shared with C11.3)', rule_8),
 ]
